@@ -274,8 +274,28 @@ macro_rules! kind_reversed {
     };
 }
 
+macro_rules! conc_dispatch {
+    (yes, $m:ident, $st:expr, $ext:expr, $t:expr, $ctx:expr, $case:expr, $li:expr) => {{
+        let threads = crate::exec_conc::parse_threads($t[1]);
+        let forced = std::mem::take(&mut $ctx.forced_schedule);
+        let (line, dec, outcome, fail) = crate::exec_conc::$m::run($st, &threads, forced);
+        $ext.annot = Some(format!("@sched={}", dec.iter().map(|d| d.2.to_string()).collect::<Vec<_>>().join(",")));
+        $ctx.last_decisions = dec;
+        $ctx.last_outcome = Some(outcome);
+        if let Some(f) = fail {
+            if $ctx.has("c17") {
+                $ctx.fail($case, $li, "c17", f);
+            }
+        }
+        line
+    }};
+    (no, $m:ident, $st:expr, $ext:expr, $t:expr, $ctx:expr, $case:expr, $li:expr) => {
+        "unsupported".to_string()
+    };
+}
+
 macro_rules! ext_mod {
-    ($m:ident, $fl:ident, $kind:ident, $ckind:ident) => {
+    ($m:ident, $fl:ident, $kind:ident, $ckind:ident, $conc:ident) => {
         pub mod $m {
             #![allow(unused, clippy::all)]
             use super::*;
@@ -402,6 +422,7 @@ macro_rules! ext_mod {
                         }
                         shown
                     }
+                    "conc" => conc_dispatch!($conc, $m, st, ext, t, ctx, case, li),
                     "cmp" => {
                         // cmp k1 v1 k2 v2 : comparison operators on two fresh nodes
                         let a = N::new(t[1].parse().unwrap(), t[2].parse().unwrap());
@@ -653,7 +674,7 @@ macro_rules! ext_mod {
         }
     };
 }
-ext_mod!(di, digraph, di, di);
-ext_mod!(sdi, sync_digraph, di, di);
-ext_mod!(un, ungraph, un, un);
-ext_mod!(sun, sync_ungraph, un, sun);
+ext_mod!(di, digraph, di, di, no);
+ext_mod!(sdi, sync_digraph, di, di, yes);
+ext_mod!(un, ungraph, un, un, no);
+ext_mod!(sun, sync_ungraph, un, sun, yes);
